@@ -562,7 +562,10 @@ def r10_2(ctx):
 def rules(ctx):
     from . import c06
     # generated names must be fresh bindings: a generated `_x` that can be the user's `_x` makes a lowering depend on (and disturb) unrelated code
-    return [r10_1, r10_2, c06.r06_6]
+    from ..engine import only
+    from . import c20
+    return [r10_1, r10_2, c06.r06_6,
+            only(c20.r20_2, lambda k: 'recorded' in k, 'a module-wide fact recorded from one import must not be undone by an unrelated later import')]
 
 
 EXPLANATION = (
